@@ -82,14 +82,24 @@ func genScenario(t *rapid.T) scenario {
 		sc.HowSet = append(sc.HowSet, rapid.IntRange(0, 3).Draw(t, "how"))
 	}
 	nk := rapid.IntRange(0, 3).Draw(t, "nctxkeys")
+	stringKeys := map[string]bool{}
 	for i := 0; i < nk; i++ {
 		counter++
-		sc.CtxKeys = append(sc.CtxKeys, ctxKeySpec{
+		k := ctxKeySpec{
 			Name:     rapid.StringMatching(`[a-f]{1,2}`).Draw(t, "ctxkey"),
 			Stringer: rapid.Bool().Draw(t, "stringerKey"),
 			Present:  rapid.IntRange(0, 3).Draw(t, "present") != 0,
 			Val:      counter,
-		})
+		}
+		if !k.Stringer {
+			// two registered string keys with the same text are the same context key (one lookup result):
+			// keep string keys distinct; Stringer keys are distinct objects even with equal text
+			if stringKeys[k.Name] {
+				continue
+			}
+			stringKeys[k.Name] = true
+		}
+		sc.CtxKeys = append(sc.CtxKeys, k)
 	}
 	sc.CtxMode = rapid.SampledFrom([]string{"ctx", "ctx", "nil", "plain"}).Draw(t, "ctxmode")
 	switch rapid.IntRange(0, 3).Draw(t, "callsize") {
